@@ -19,7 +19,7 @@ static int mixed_classes; static unsigned vnew_count;
 #define NCLS 3
 static const char *cls_name[NCLS] = { "array", "linked_list", "dlinked_list" };
 #define NSLOT 2
-#define MAXLEN 256
+#define MAXLEN 2400      /* (256 until seeded round 15 asked for containers beyond 1024 elements; no earlier plan came near the old limit) */
 #define HOLE (-1L)
 
 typedef struct { long root[MAXLEN]; long key[MAXLEN]; long val[MAXLEN]; int len; } model_t;   /* val: value id for maps */
@@ -298,7 +298,7 @@ static void list_pass(const plan_t *p)
             vobj_t e;
             long idx = o->na > 3 && o->a[3] == 1 ? resolve_idx(o->a[2], m->len) : o->a[2], j = idx < 0 ? idx + m->len : idx;
             spif_bool_t b;
-            if (j > MAXLEN / 2 || m->len >= MAXLEN - 60) continue;
+            if (j > MAXLEN - 200 || m->len >= MAXLEN - 60) continue;
             e = VNEW(o->a[1]);
             b = SPIF_LIST_INSERT_AT(l, e, (spif_listidx_t)idx);
             if (j < 0) {
@@ -545,6 +545,16 @@ static void vector_pass(const plan_t *p)
             if (v) continue;
             C[s] = new_container(2); m->len = 0;
         } else if (!v) continue;
+        else if (!strcmp(k, "bulk")) {
+            /* a thousand and more insertions in one operation (a plan holds 600 operations at most): the sizes where growth policies change */
+            long n = o->a[1], stride = o->a[2] | 1, base = o->a[3];
+            for (long q = 0; q < n && m->len < MAXLEN - 2; q++) {
+                vobj_t e = VNEW((base + q * stride) % (vec_keys + 1));
+                if (!SPIF_VECTOR_INSERT(v, e)) FAILM("return", "insert returned FALSE");
+                m_ins(m, m->len, e->root, e->key, 0);
+            }
+            probe_hit("vector_beyond_a_thousand");
+        }
         else if (!strcmp(k, "insert")) {
             vobj_t e;
             long mn = 1000000, mx = -1000000;
@@ -949,6 +959,19 @@ static void gen_list(plan_t *p, rng_t *r)
         for (int q = 0; q < pre; q++) plan_op(p, 0, rng_chance(r, 1, 4) ? "prepend" : "append", 2, 0L, (long)rng_below(r, 6));
         len[0] = pre; cap = 110;
     }
+    if (rng_chance(r, 1, 80)) {
+        /* one plan in eighty reaches the sizes where growth policies change (1024 slots, 2048): a single insert_at far beyond the end makes
+           a list of that length out of placeholders; few operations follow, and sparsely checked, or the quadratic walks of the linked
+           classes would take the time of a thousand ordinary plans */
+        static const int edge[] = { 1023, 1024, 1025, 1030, 1100, 1536, 2047, 2048, 2049, 2100 };
+        long idx = edge[rng_below(r, 10)];
+        int pre = rng_range(r, 1, 3);
+        for (int q = 0; q < pre; q++) plan_op(p, 0, "append", 2, 0L, (long)rng_below(r, 6));
+        plan_op(p, 0, "insert_at", 3, 0L, (long)rng_below(r, 6), idx);
+        len[0] = (int)idx + 1; cap = 2200; nops = rng_range(r, 1, 6);
+        plan_knob(p, "sparse", 1);
+        plan_knob(p, "big", 1);
+    }
     for (int i = 0; i < nops; i++) {
         int s = ex[1] && rng_chance(r, 1, 2) ? 1 : 0, k = (int)rng_below(r, 100);
         long key = (long)rng_below(r, 6);
@@ -985,6 +1008,15 @@ static void gen_vector(plan_t *p, rng_t *r)
         for (int q = 0; q < pre; q++) plan_op(p, 0, "insert", 2, 0L, (long)rng_below(r, (uint32_t)krange));
         len[0] = pre; cap = 110;
     }
+    if (rng_chance(r, 1, 400)) {
+        /* one plan in four hundred goes beyond a thousand elements (see gen_list; these cost a few hundred ordinary plans each) */
+        static const int edge[] = { 1023, 1024, 1025, 1030, 1100, 1536, 2047, 2049 };
+        int n = edge[rng_below(r, 8)];
+        krange = 48; plan_knob(p, "keys", krange);
+        plan_op(p, 0, "bulk", 4, 0L, (long)n, (long)rng_below(r, 50), (long)rng_below(r, 50));
+        len[0] += n; cap = 2300; nops = rng_range(r, 1, 6);
+        plan_knob(p, "sparse", 1);
+    }
     for (int i = 0; i < nops; i++) {
         int s = ex[1] && rng_chance(r, 1, 2) ? 1 : 0, k = (int)rng_below(r, 100);
         long key = (long)rng_below(r, (uint32_t)krange), edge = rng_chance(r, 1, 6) ? -1L : rng_chance(r, 1, 6) ? (long)krange + 1 : key;
@@ -1007,6 +1039,15 @@ static void gen_map(plan_t *p, rng_t *r)
     plan_knob(p, "keys", krange);
     plan_op(p, 0, "new", 1, 0L);
     if (krange == 48) { int pre = rng_range(r, 20, 60); for (int q = 0; q < pre; q++) plan_op(p, 0, "set", 3, 0L, (long)rng_below(r, 48), 0L); }     /* a large key set */
+    if (rng_chance(r, 1, 500)) {
+        /* one plan in five hundred (each costs a few hundred ordinary ones): a dictionary of 250..300 entries -- around the 256 where block-wise growth and narrow counters show --
+           and then the listings, which build their result lists by appending that many times */
+        int pre = rng_range(r, 250, 300), step = 1 + 2 * (int)rng_below(r, 5);
+        krange = 400; plan_knob(p, "keys", krange); plan_knob(p, "sparse", 1);
+        for (int q = 0; q < pre; q++) plan_op(p, 0, "set", 3, 0L, (long)((q * step * 7 + 3) % 400), 0L);
+        plan_op(p, 0, "keys", 2, 0L, 0L); plan_op(p, 0, "values", 2, 0L, rng_chance(r, 1, 2) ? 2L : 0L); plan_op(p, 0, "pairs", 2, 0L, 0L);
+        nops = rng_range(r, 1, 8);
+    }
     for (int i = 0; i < nops; i++) {
         int s = ex[1] && rng_chance(r, 1, 2) ? 1 : 0, k = (int)rng_below(r, 100);
         long key = (long)rng_below(r, (uint32_t)krange);
